@@ -21,3 +21,23 @@ Theorem C04_expression_entries_in_range :
   forall shape idx, in_range shape idx -> (0 <= strided shape idx < prodZ shape)%Z.
 Proof. exact strided_bounds. Qed.
 Print Assumptions C04_expression_entries_in_range.
+
+(* the index expression lnodes.MultiIndex builds (model MIdx.global_index over the overloads translated from the source,
+   compared node by node with the real class by midxcorr.py) evaluates to that row-major position, in any numeric domain *)
+From Coq Require Import String.
+From FFCX Require Import LN MIdx.
+
+Theorem C04_multiindex_expression_evaluates_to_the_row_major_position :
+  forall (T : Type) (of_Z : Z -> T) (of_lit : Z -> Z -> T) (of_clit : Z -> Z -> Z -> Z -> T)
+         (tadd tsub tmul tdiv : T -> T -> T) (tneg : T -> T) (teqb tltb tleb : T -> T -> bool)
+         (tfn : string -> list T -> T) inp st sizes syms vs e,
+    global_index sizes syms = Some e -> forallb idx_atom syms = true ->
+    opt_map (@eval T of_Z of_lit of_clit tadd tsub tmul tdiv tneg teqb tltb tleb tfn inp st) syms = Some (map (fun v => VI v) vs) ->
+    @eval T of_Z of_lit of_clit tadd tsub tmul tdiv tneg teqb tltb tleb tfn inp st e = Some (VI (strided sizes vs)).
+Proof. intros. eapply global_index_value; eauto. Qed.
+Print Assumptions C04_multiindex_expression_evaluates_to_the_row_major_position.
+
+Example C04_multiindex_example :
+  global_index [2; 3; 4]%Z [ESym 11%positive; ELitI 0; ESym 12%positive]
+  = Some (ESum [EBin OMul (ELitI 12) (ESym 11%positive); ELitI 0; ESym 12%positive]).
+Proof. reflexivity. Qed.
